@@ -255,6 +255,11 @@ def parseCall (ws : List String) : Option Client.Call := do
   | "version" => some .version
   | "quit" => some .quit
   | "raw" => do pure (.raw (← Bytes.ofHex (← arg ws "cmd")) (← Bytes.ofHex (← arg ws "tok")))
+  | "stats" => do pure (.stats (← parseKeys (← arg ws "args")))
+  | "cache_memlimit" => do pure (.cacheMemlimit (← parseIntArg (← arg ws "m")))
+  | "shutdown" => do
+    let g ← arg ws "g"
+    if g = "1" then some (.shutdown true) else if g = "0" then some (.shutdown false) else none
   | v => do
     let verb ← parseSVerb v
     let fl ← arg ws "fl"
@@ -282,6 +287,7 @@ def showRes : Client.Res → String
   | .dict kvs => "dict:{" ++ ";".intercalate (sortStrs (kvs.map fun (k, v) => showKey k ++ "=" ++ Bytes.toHex v)) ++ "}"
   | .casDict kvs => "casdict:{" ++ ";".intercalate (sortStrs (kvs.map fun (k, v, c) => showKey k ++ "=" ++ Bytes.toHex v ++ "/" ++ Bytes.toHex c)) ++ "}"
   | .keys ks => "keys:[" ++ ";".intercalate (ks.map showKey) ++ "]"
+  | .stats kvs => "stats:{" ++ ";".intercalate (sortStrs (kvs.map fun (k, v) => showKey k ++ "=" ++ Bytes.toHex v)) ++ "}"
 
 def showExcept (r : Except Exchange.Exc Client.Res) : String :=
   match r with
